@@ -15,12 +15,16 @@ SC == ScStruct(<<ScU(1), ScU(2), ScU(4)>>, <<-1, 2, 1>>)                      \*
 SD == ScStruct(<<SB, ScOpt(SA), ScSlice(SC)>>, <<2, 1, -1>>)
 SE == ScTuple(<<EnumA, ScRes(ScU(4), ScBytes), ScMap(ScU(1), ScU(2))>>)
 SF == ScStruct(<<ScBigInt, ScU128, ScStr, ScI(8)>>, <<10, 7, 8, 9>>)
+(* a WIDE struct (17 fields): tagged fields declared late among untagged ones.  Field order is decided by a sort; sorts that *)
+(* are stable for a dozen elements need not be for more (seed C11d)                                                          *)
+SW == ScStruct([i \in 1..17 |-> IF i = 9 THEN ScU(2) ELSE ScU(1)],
+               [i \in 1..17 |-> IF i = 14 THEN 2 ELSE IF i = 16 THEN 1 ELSE -1])
 
 (* depth-1 constructions over every leaf *)
 D1 == {ScOpt(t) : t \in LeafSet} \cup {ScSlice(t) : t \in LeafSet} \cup {ScArr(3, t) : t \in LeafSet}
       \cup {ScMap(ScU(1), t) : t \in LeafSet}
 
-Structs == {SA, SB, SC, SD, SE, SF}
+Structs == {SA, SB, SC, SD, SE, SF, SW}
 Mixed == { ScRes(ScU(4), ScStr), ScRes(ScBool, SA), ScRes(ScCompact, ScBigInt), EnumA, EnumB,
            ScSlice(EnumA), ScOpt(EnumB), ScArr(2, EnumA),
            ScSlice(ScSlice(ScU(2))), ScSlice(ScOpt(ScU(2))), ScOpt(ScOpt(ScU(1))), ScArr(2, ScArr(2, ScU(1))),
